@@ -18,14 +18,15 @@ TV out  `xfr record out`: real dns.Server on an in-memory listener, handler = Tr
         Trace_Tsig + `tsig judge` (every MAC = HMAC over the specification's digest input chained on the previous
         MAC, timers only from the 2nd envelope; TsigStatus of the request).
 
-Known findings (known-findings.d/C15.txt), each reproduced by `xfr replay` on one vector:
-  xfr/in-axfr:rcode-not-reported:envelope>1
+Findings of this check on the pinned tree, since repaired in /repo (`fixed:` in known-findings.txt; the keys are
+still computed, so a regression is reported under the same name):
+  xfr/in-axfr:rcode-not-reported:envelope>1                                  (fix 6af98ba)
       AXFR [SOA(s)] [Rec, RCODE=SERVFAIL] [SOA(s)] -> three envelopes delivered, no error (statement: "reports an
       error instead when ... the RCODE is non-zero")
-  xfr/in-ixfr:incomplete-reported-complete:client-serial-numerically>=server
-      IXFR, client serial 4294967295, server [SOA(5)] [Rec] [SOA(5)] -> stops after the first envelope, no error
-  xfr/in-ixfr:uptodate-answer-not-recognised:client-serial-numerically<server
-      IXFR, client serial 5, server answers [SOA(4294967295)] alone -> error after the envelope (keeps reading)
+  xfr/in-ixfr:incomplete-reported-complete:client-serial-numerically>=server (fix a3ad563)
+      IXFR, client serial 4294967295, server [SOA(5)] [Rec] [SOA(5)] -> stopped after the first envelope, no error
+  xfr/in-ixfr:uptodate-answer-not-recognised:client-serial-numerically<server (fix a3ad563)
+      IXFR, client serial 5, server answers [SOA(4294967295)] alone -> error after the envelope (kept reading)
 
 Reproduction vectors (one line each in a file, `out/C15.quick/bin/xfr replay <file>`; or as the "case" of a replay
 file for `bin/check C15 --replay`):
@@ -41,6 +42,8 @@ Mutants (checks/mutants/C15, each must give exit 1):
   timersonly-never-set          GEN (error-on-clean-transfer with TSIG, >= 2 envelopes), C11 CHAINS
   out-timersonly-not-set        TV out (tsig judge: accepts-invalid:mac:server-out)
   rcode-ixfr-first-only         GEN (fault-not-reported:rcode in IXFR)
+  axfr-rcode-first-envelope-only  (reverts fix 6af98ba) GEN (rcode-not-reported:envelope>1)
+  ixfr-serial-integer-compare     (reverts fix a3ad563) GEN (incomplete-reported-complete / uptodate-answer-not-recognised)
 """
 import os, json
 import vp
